@@ -46,7 +46,10 @@ def assigned_names(body: List[ast.stmt]) -> Set[str]:
             elif isinstance(n, ast.NamedExpr):
                 tgt(n.target)
             elif isinstance(n, ast.Call) and isinstance(n.func, ast.Attribute) and n.func.attr in ("append", "extend", "pop", "add", "update"):
-                tgt(n.func.value)
+                if isinstance(n.func.value, ast.Name):
+                    out.add("?" + n.func.value.id)      # in-place mutation only if the receiver is a container (decided at havoc time)
+                else:
+                    tgt(n.func.value)
     return out
 
 
@@ -147,6 +150,11 @@ def exec_for(e: Engine, s: ast.For, st: State) -> List[Outcome]:
     check_invariants(e, spec, st, I(0), space, pre_loop, tag, "entry")
     # 2. havoc
     names = assigned_names(s.body) | mutated_args(e, s.body)
+    for nm in [x for x in names if x.startswith("?")]:
+        names.discard(nm)
+        cur = st.store.get(nm[1:])
+        if cur is None or cur.ty.kind in ("seq", "dict", "set", "small", "none"):
+            names.add(nm[1:])
     inner_labels = set()
     for bst in s.body:
         for x in ast.walk(bst):
